@@ -13,6 +13,8 @@ type VerifPoolSnap struct {
 	CloseIdle       bool
 	PerHost         map[string]int // connsPerHost[key]
 	DialWait        map[string]int // len(connsPerHostWait[key])
+	IdleWaitLive    map[string]int // entries of idleConnWait[key] that are still waiting
+	DialWaitLive    map[string]int // entries of connsPerHostWait[key] that are still waiting
 	DialsInProgress int
 	MaxIdleConns    int
 	MaxIdlePerHost  int
@@ -26,6 +28,7 @@ func VerifPoolSnapshot(t *Transport) VerifPoolSnap {
 	s := VerifPoolSnap{
 		Idle: map[string][]net.Conn{}, IdleWait: map[string]int{},
 		PerHost: map[string]int{}, DialWait: map[string]int{},
+		IdleWaitLive: map[string]int{}, DialWaitLive: map[string]int{},
 		MaxIdleConns: t.MaxIdleConns, MaxIdlePerHost: t.MaxIdleConnsPerHost,
 		MaxConnsPerHost: t.MaxConnsPerHost, NoKeepAlives: t.DisableKeepAlives,
 	}
@@ -42,6 +45,13 @@ func VerifPoolSnapshot(t *Transport) VerifPoolSnap {
 	}
 	for k, q := range t.idleConnWait {
 		s.IdleWait[k.String()] = q.len()
+		n := 0
+		q.all(func(w *wantConn) {
+			if w.waiting() {
+				n++
+			}
+		})
+		s.IdleWaitLive[k.String()] = n
 	}
 	s.LRULen = t.idleLRU.len()
 	s.CloseIdle = t.closeIdle
@@ -50,6 +60,13 @@ func VerifPoolSnapshot(t *Transport) VerifPoolSnap {
 	}
 	for k, q := range t.connsPerHostWait {
 		s.DialWait[k.String()] = q.len()
+		n := 0
+		q.all(func(w *wantConn) {
+			if w.waiting() {
+				n++
+			}
+		})
+		s.DialWaitLive[k.String()] = n
 	}
 	s.DialsInProgress = t.dialsInProgress.len()
 	return s
